@@ -91,6 +91,26 @@ def static_clauses(ctx, st, pt, p):
         if p.isotope and rng.random() < 0.5:
             kw['use_isotope_on_mods'] = True
         a = observe(st, pt, 'mass', t_rule, **kw)
+        if len(p.static) >= 2 and rng.random() < 0.25:
+            # the same peptide as an object that was built step by step: first rule only, a mass asked for, the other
+            # rules appended afterwards (state kept on the object must follow the edit)
+            try:
+                first = p.copy()
+                first.static = p.static[:1]
+                obj = pt.parse(rp.write(first))
+                with ctx.eng.suspend():
+                    pt.mass(obj, **kw)
+                    pt.fragment(obj, 'b', 1) if not (p.unknown or p.intervals) else None
+                    obj.add_static_mods([f'{r.text()}' for r in p.static[1:]], append=True)
+                a2 = observe(st, pt, 'mass', obj, **kw)
+                ctx.decided()
+                if a is not None and a2 is not None and (a[0] != a2[0] or (a[0] == 'ok' and abs(a[1] - a2[1]) > 1e-6)):
+                    ctx.violation('mass-of-incrementally-built-annotation-differs',
+                                  {'rule_form': t_rule, 'kwargs': kw, 'from_text': a, 'from_object': a2})
+            except Exception as ex:
+                ctx.note('incremental_build_raises:' + type(ex).__name__)
+        if kw.get('use_isotope_on_mods') and rng.random() < 0.3:
+            kw = dict(kw, use_isotope_on_mods=1)     # a flag is a flag
         b = observe(st, pt, 'mass', t_expl, **kw)
         ctx.decided()
         if a is None or b is None:
